@@ -1,5 +1,5 @@
 SPECIFICATION Spec
-CONSTANTS Quota = 6
+CONSTANTS Quota = 14
  ChainQuota = 3
 INVARIANT InDomainOK
 INVARIANT PropertyDomainOK
